@@ -68,7 +68,7 @@ func (f *FieldUpdater) Merge(dst, src proto.Message) {
 		emptyUpdateMask := f.updateMask != nil && len(f.updateMask.GetPaths()) == 0 // => no changes at all
 		if f.resetMask != nil && !emptyUpdateMask {
 			// the reset mask is independent of the writable fields
-			fmutils.Prune(dst, f.resetMask.Paths)
+			fmutils.Prune(dst, f.resetPaths())
 		}
 		return // nothing is writable
 	}
@@ -114,10 +114,16 @@ func (f *FieldUpdater) Merge(dst, src proto.Message) {
 	pruneEmpty(dst, src, pruneMask)
 
 	if f.resetMask != nil {
-		fmutils.Prune(dst, f.resetMask.Paths)
+		fmutils.Prune(dst, f.resetPaths())
 	}
 
 	return
+}
+
+// resetPaths returns the reset mask's paths normalised, so that a field named together with one of its own
+// parts is cleared as a whole (fmutils lets the part replace the field).
+func (f *FieldUpdater) resetPaths() []string {
+	return fieldmaskpb.Union(f.resetMask, nil).GetPaths()
 }
 
 // overlapsAny reports whether path selects at least one field that one of paths selects too.
